@@ -675,17 +675,31 @@ class Interp:
         if s.exc is None:
             raise EngineError('bare raise not supported')
         v = self.ev(s.exc, fr)
+        if isinstance(v, ClassVal) and self._is_exc_class(v):
+            raise PyExc(v.name, '')
+        if isinstance(v, ObjVal) and self._is_exc_class(v.cls):
+            raise PyExc(v.cls.name, '')
         if isinstance(v, ExcClass):
             raise PyExc(v.name, '')
         if isinstance(v, ExcVal):
             raise PyExc(v.cls.name, ' '.join(str(a) for a in v.args))
         raise PyExc('TypeError', 'exceptions must derive from BaseException')
 
+    def _is_exc_class(self, cls):
+        for b in cls.bases():
+            if isinstance(b, ExcClass):
+                self.lib.exc_bases.setdefault(cls.name, b.name)
+                return True
+            if isinstance(b, ClassVal) and self._is_exc_class(b):
+                self.lib.exc_bases.setdefault(cls.name, b.name)
+                return True
+        return False
+
     def exc_matches(self, kind, handler_type, fr):
         if handler_type is None:
             return True
         v = self.ev(handler_type, fr)
-        names = [x.name for x in (v if isinstance(v, tuple) else (v,)) if isinstance(x, ExcClass)]
+        names = [x.name for x in (v if isinstance(v, tuple) else (v,)) if isinstance(x, (ExcClass, ClassVal))]
         k = kind
         seen = 0
         while k is not None and seen < 10:
